@@ -413,8 +413,16 @@ func (e *Engine) cover(workdir string, timeout time.Duration) bool {
 	var wg sync.WaitGroup
 	n := 0
 	for _, pe := range e.Paths {
-		if n >= 6 {
-			break
+		if n > 0 && n%6 == 0 {
+			// batches of six: stop as soon as one path is known to be feasible (an infeasible prefix of
+			// the path list - e.g. a defensive branch that can never be taken - must not look like vacuity)
+			wg.Wait()
+			mu.Lock()
+			done := ok
+			mu.Unlock()
+			if done || n >= 120 {
+				break
+			}
 		}
 		n++
 		wg.Add(1)
@@ -614,7 +622,7 @@ func (e *Engine) frameExceptions(s *State, ctx *SpecCtx) []frameExc {
 				c2 := *ctx
 				c2.InOld = true
 				obj := e.eval(s, &c2, cl.Expr)
-				excs = append(excs, exc{e.heapNameField(structKey(deref(obj.T)), m[i:], ""), obj.V.L[0]})
+				excs = append(excs, exc{e.heapNameField(structKey(deref(obj.T)), "."+aliasField(deref(obj.T), m[i+1:]), ""), obj.V.L[0]})
 			}()
 		}
 	}
